@@ -25,6 +25,21 @@ The aggregate `fault['agg']` raises `exc` from update_state for the batch that h
 the j-th surviving batch (identified by the first value of its input column; all
 column values are unique because every operator is injective on the naturals).
 
+Second fault class (fourth audit round): 'an operator fails OUTSIDE the per-element
+skippable call'. The LAST operator of the pipeline (spec order; it is then the last
+operator of its stage in every layout) is an `apply` that passes every column
+through and adds one:
+
+    ['apply', out, in, op, [columns in front of it], batch_size (0 | rows per batch)]
+    fault = {'op': out, 'batch': j, 'mode': 'arity' | 'nonbatch'}
+
+  arity    : for the j-th surviving batch the function returns one value more than
+             there are output_keys (the library pairs outputs and output_keys
+             strictly, behind the skippable call)
+  nonbatch : apply(..., batch_size=rows per batch); for that batch the new column
+             is a scalar, not a batch (the output re-batcher refuses it inside its
+             generator, behind the skippable call)
+
 The expected values (model) are plain Python; nothing here asks the library what it
 should have done.
 """
@@ -82,6 +97,22 @@ def keep(xs, m=2):
   return sum(int(v) for v in xs) % m != 0
 
 
+OP_FAULT_MODES = ('arity', 'nonbatch')
+
+
+def op_apply(*cols, op=None, src_i=0, bad=None, mode=None):
+  """Passes every column through and adds op(cols[src_i]); the batch holding `bad`
+  gets a result the library cannot take (see the module docstring)."""
+  new = _apply_op(op, cols[src_i])
+  if bad is not None and bad in cols[src_i]:
+    if mode == 'arity':
+      return tuple(cols) + (new, new)
+    if mode == 'nonbatch':
+      return tuple(cols) + (int(new[0]),)
+    raise ValueError(mode)
+  return tuple(cols) + (new,)
+
+
 def _apply_op(op, xs):
   if op[0] == 'affine':
     return op_affine(xs, op[1], op[2])
@@ -134,6 +165,42 @@ def gen_fspec(rng):
   return fspec
 
 
+def with_last_apply(rng, fspec, p_fault=0.85):
+  """A variant of `fspec` whose LAST operator is a column-adding `apply` (the last
+  assign converted, or a new one behind the last operator: in front of, between or
+  behind the aggregations), failing outside the skippable call on one random batch
+  (or not at all). Returns None when no batch reaches the consumer."""
+  els = [list(el) for el in fspec['els']]
+  non_agg = [i for i, el in enumerate(els) if el[0] != 'agg']
+  last = non_agg[-1] if non_agg else -1
+  cols_at = lambda k: ['x'] + [el[1] for el in els[:k] if el[0] in ('assign', 'apply')]
+  if last >= 0 and els[last][0] == 'assign' and rng.random() < 0.4:
+    pos = last
+    _, out, src, op = els[last]
+  else:
+    pos = rng.randint(last + 1, len(els))
+    if pos == len(els) and last + 1 < len(els) and rng.random() < 0.7:
+      pos = rng.randint(last + 1, len(els) - 1)    # a stage downstream can exist
+    out, src = 'p0', rng.choice(cols_at(pos))
+    op = (['affine', rng.randint(1, 3), rng.randint(0, 5)] if rng.random() < 0.7
+          else ['square'])
+    els.insert(pos, None)
+  new = dict(fspec, els=els, fault=None)
+  els[pos] = ['apply', out, src, op, cols_at(pos), 0]
+  outs = model(new)['outs']
+  if not outs:
+    return None
+  if rng.random() < p_fault:
+    mode = rng.choice(OP_FAULT_MODES)
+    j = rng.choice([0, len(outs) - 1, rng.randrange(len(outs)), rng.randrange(len(outs))])
+    new['fault'] = {'op': out, 'batch': j, 'mode': mode}
+  else:
+    mode = None
+  if mode == 'nonbatch' or (mode != 'nonbatch' and rng.random() < 0.4):
+    els[pos][5] = fspec['rec']
+  return new
+
+
 def agg_keys(fspec):
   return [el[1] for el in fspec['els'] if el[0] == 'agg']
 
@@ -145,7 +212,7 @@ def model(fspec):
   for rec in records(fspec):
     cur, kept = dict(rec), True
     for el in fspec['els']:
-      if el[0] == 'assign':
+      if el[0] in ('assign', 'apply'):
         cur[el[1]] = _apply_op(el[3], cur[el[2]])
       elif el[0] == 'filter':
         if not keep(cur[el[1]], el[2]):
@@ -169,7 +236,10 @@ def bad_value(fspec):
   f = fspec.get('fault')
   if not f:
     return None
-  col = next(el[2] for el in fspec['els'] if el[0] == 'agg' and el[1] == f['agg'])
+  if 'op' in f:
+    col = next(el[2] for el in fspec['els'] if el[0] == 'apply' and el[1] == f['op'])
+  else:
+    col = next(el[2] for el in fspec['els'] if el[0] == 'agg' and el[1] == f['agg'])
   return model(fspec)['outs'][f['batch']][col][0]
 
 
@@ -220,25 +290,29 @@ def n_stages(layout):
 
 
 def fault_stage(fspec, layout):
-  """Stage index of the faulty aggregate in this layout (None: no fault)."""
+  """Stage index of the faulty aggregate / operator in this layout (None: no fault)."""
   f = fspec.get('fault')
   if not f:
     return None
   if layout['kind'] == 'fused':
     return 0
+  kind, name = ('apply', f['op']) if 'op' in f else ('agg', f['agg'])
   for el, g in zip(fspec['els'], layout['stages'][1:]):
-    if el[0] == 'agg' and el[1] == f['agg']:
+    if el[0] == kind and el[1] == name:
       return g
-  raise ValueError('fault names no aggregate of the spec')
+  raise ValueError('fault names no element of the spec')
 
 
 def fault_class(fspec, layout):
   """Input class of the case: 'no-fault' | 'fault-in-final-stage' |
-  'fault-in-non-final-stage' (the faulty aggregate has a stage downstream)."""
+  'fault-in-non-final-stage' (the faulty aggregate has a stage downstream) |
+  'op-fault-in-final-stage' | 'op-fault-in-non-final-stage' (the operator that fails
+  outside the skippable call has a stage downstream)."""
   g = fault_stage(fspec, layout)
   if g is None:
     return 'no-fault'
-  return 'fault-in-final-stage' if g == n_stages(layout) - 1 else 'fault-in-non-final-stage'
+  pre = 'op-fault' if 'op' in fspec['fault'] else 'fault'
+  return pre + ('-in-final-stage' if g == n_stages(layout) - 1 else '-in-non-final-stage')
 
 
 def layout_class(layout):
@@ -285,6 +359,13 @@ def build(fspec, layout):
       fn = (functools.partial(op_affine, a=op[1], b=op[2]) if op[0] == 'affine'
             else op_square)
       cur = cur.assign(el[1], fn=fn, input_keys=el[2])
+    elif el[0] == 'apply':
+      _, out, src, op, cols, bs = el
+      mine = fault.get('op') == out
+      fn = functools.partial(op_apply, op=op, src_i=cols.index(src),
+                             bad=bad if mine else None, mode=fault.get('mode'))
+      cur = cur.apply(fn=fn, input_keys=tuple(cols), output_keys=tuple(cols) + (out,),
+                      **({'batch_size': bs} if bs else {}))
     elif el[0] == 'filter':
       cur = cur.filter(functools.partial(keep, m=el[2]), input_keys=el[1])
     elif el[0] == 'agg':
